@@ -1653,6 +1653,8 @@ class Interp:
                 for e, x in zip(t.elts, v):
                     self._bind_target(e, x, fr, st)
             else:
+                if isinstance(v, tuple) and not any(isinstance(e, ast.Starred) for e in t.elts):
+                    raise _CrashSig(Crash(f"ValueError: {len(v)} values to unpack into {len(t.elts)} targets"))
                 why = v if is_unknown(v) else Unknown("tuple unpacking of a non-tuple")
                 for e in t.elts:
                     self._bind_target(e.value if isinstance(e, ast.Starred) else e, why, fr, st)
